@@ -260,7 +260,7 @@ func TestC12_ConfigSampled(t *testing.T) {
 // drawCfg draws a configuration; wide adds the factors the exhaustive cross keeps fixed.
 func drawCfg(rt *rapid.T, kind string, wide bool) Cfg {
 	c := Cfg{BlobStmt: rp.Pick(rt, "blobStmt", "named", "global", "named+global"), Level: rp.Pick(rt, "level", "strict", "strict", "strict", "permissive", "permissive", "audit", "audit", "audit", "skip"),
-		PM: rp.Pick(rt, "pm", "scripted", "scripted", "nil", "empty", "failing", "hostile0", "hostile1", "hostile2", "hostile3", "hostile4", "hostile5"),
+		PM:    rp.Pick(rt, "pm", "scripted", "scripted", "nil", "empty", "failing", "hostile0", "hostile1", "hostile2", "hostile3", "hostile4", "hostile5"),
 		Trust: "trusted", Identity: "wildcard", Revocation: "ok"}
 	other := map[string]string{"oci": "blob", "blob": "oci"}[kind]
 	c.Docs = rp.Pick(rt, "docs", kind, kind, kind, "both", "both", "both", "both", "both", "both", other)
